@@ -101,19 +101,19 @@ def model_rows(dumps, workdir):
         t.start()
     for t in ths:
         t.join()
-    rows = []
+    rows = [None] * len(lines)
     for i in range(n):
         outl = [l for l in (results[i] or "").split("\n") if l]
         if len(outl) != len(chunks[i]):
             log("[corpus] model produced %d lines for %d cases in chunk %d" % (len(outl), len(chunks[i]), i))
             raise SystemExit(2)
-        for src, l in zip(chunks[i], outl):
+        for j, (src, l) in enumerate(zip(chunks[i], outl)):
             try:
                 r = json.loads(l)
             except json.JSONDecodeError:
                 r = {"error": "bad json from model", "raw": l[:200]}
             r["_sexp"] = src
-            rows.append(r)
+            rows[i + n * j] = r      # the order of the recording (records of one site stay in expansion order)
     return rows
 
 
